@@ -1,5 +1,5 @@
 """contracts for the per-type message files — layouts from ITU-R M.1371-5 Annex 8 (bit offsets from 0, MSB first)"""
-from common import MSG_PROLOGUE, bits_closure_head, signed_closure, leaf_post
+from common import MSG_PROLOGUE, apply_bits_closure, apply_signed_closures, leaf_post
 from layout import gen_posts
 
 HDR = [('message_type', 'raw', 0, 6, 'C04'), ('repeat_indicator', 'raw', 6, 2, 'C04'), ('mmsi', 'raw', 8, 30, 'C04')]
@@ -15,9 +15,8 @@ def std_message(fc, prefix, struct, fields, extra, fn='parse_base', lifetime=Fal
     ens_inner = ['%s(data.0@, strip(r))' % names[t] for t in names]
     ens_outer = ['%s(data@, strip(r))' % names[t] for t in names]
     fc.contract(fn, requires=['small(data@.len() as int)'], ensures=ens_outer)
-    fc.replace_in(fn, BITS_HEAD_A if lifetime else BITS_HEAD, bits_closure_head(struct, ens_inner, lifetime))
-    for w in signed:
-        fc.replace_in(fn, '|data| signed_i32(data, %d)' % w, signed_closure(w))
+    apply_bits_closure(fc, fn, struct, ens_inner, lifetime)
+    apply_signed_closures(fc, fn, signed)
     fc.contract('parse', within='for %s' % (trait_for or struct), ensures=['%s(data@, strip1(r))' % names[t] for t in names])
     return names
 
@@ -80,7 +79,7 @@ T5 = HDR + [
 
 def apply_static_and_voyage(fc):
     std_message(fc, 't5', 'StaticAndVoyageRelatedData', T5, {'C14': ['r is Ok <==> n >= 302']}, fn='parse_message', signed=())
-    fc.replace_in('parse_message', '|raw_draught| {', '|raw_draught: u8| -> (o: f32) ensures draught_rel(raw_draught, o), { ' + F32)
+    fc.replace_in_re('parse_message', r'\|(\w+)\| \{(?=\s*\1 as f32 / 10\.0)', r'|\1: u8| -> (o: f32) ensures draught_rel(\1, o), { ' + F32)
 
 
 # ---------------------------------------------------------------------------------------------- 6 / 8 / 17 (C15)
@@ -170,7 +169,7 @@ def apply_ack(fc, struct, prefix):
     fc.contract('parse', within='impl Acknowledgement', requires=['cur_ok(data)'], ensures=['ack_post(data, r)'], tags=['C04', 'C14'])
     inner = ['%s_C04(data.0@, strip(r))' % prefix, '%s_C14(data.0@, strip(r))' % prefix]
     fc.contract('parse_base', requires=['small(data@.len() as int)'], ensures=['%s_C04(data@, strip(r))' % prefix, '%s_C14(data@, strip(r))' % prefix])
-    fc.replace_in('parse_base', BITS_HEAD_A, bits_closure_head(struct, inner, True))
+    apply_bits_closure(fc, 'parse_base', struct, inner, True)
     fc.contract('parse', within='for %s' % struct, ensures=['%s_C04(data@, strip1(r))' % prefix, '%s_C14(data@, strip1(r))' % prefix])
 
 
@@ -206,7 +205,7 @@ pub open spec fn t20_C14(o: Seq<u8>, r: core::result::Result<DataLinkManagementM
     fc.contract('parse', within='impl SlotReservation', requires=['cur_ok(data)'], ensures=['slot_post(data, r)'], tags=['C04', 'C14'])
     inner = ['t20_C04(data.0@, strip(r))', 't20_C14(data.0@, strip(r))']
     fc.contract('parse_base', requires=['small(data@.len() as int)'], ensures=['t20_C04(data@, strip(r))', 't20_C14(data@, strip(r))'])
-    fc.replace_in('parse_base', BITS_HEAD_A, bits_closure_head('DataLinkManagementMessage', inner, True))
+    apply_bits_closure(fc, 'parse_base', 'DataLinkManagementMessage', inner, True)
     fc.contract('parse', within='for DataLinkManagementMessage', ensures=['t20_C04(data@, strip1(r))', 't20_C14(data@, strip1(r))'])
 
 
@@ -401,7 +400,7 @@ pub open spec fn t24_C14(o: Seq<u8>, r: core::result::Result<StaticDataReport, (
     fc.contract('parse_message_part', requires=['cur_ok(data)'], ensures=['part_post(data, r)'], tags=['C04', 'C12', 'C13', 'C14'])
     inner = ['t24_C04(data.0@, strip(r))', 't24_C14(data.0@, strip(r))']
     fc.contract('parse_message', requires=['small(data@.len() as int)'], ensures=['t24_C04(data@, strip(r))', 't24_C14(data@, strip(r))'])
-    fc.replace_in('parse_message', BITS_HEAD, bits_closure_head('StaticDataReport', inner))
+    apply_bits_closure(fc, 'parse_message', 'StaticDataReport', inner)
     fc.contract('parse', within='for StaticDataReport', ensures=['t24_C04(data@, strip1(r))', 't24_C14(data@, strip1(r))'])
 
 
@@ -436,9 +435,9 @@ pub open spec fn coord27_post(t: u8, sentinel: i32, x: i32, o: Option<f32>) -> b
 }
 '''
     std_message(fc, 't27', 'LongRangeAisBroadcastMessage', T27, {'C14': ['r is Ok <==> n >= 96']}, signed=(18, 17), guard='fld(o, 0, 6) == 27', more_spec=more)
-    fc.replace_in('parse_base', '|lon| {', '|lon: i32| -> (o: Option<f32>) requires -131072 <= lon < 131072, ensures coord27_post(message_type, 108_600, lon, o), { ' + F32)
-    fc.replace_in('parse_base', '|lat| {', '|lat: i32| -> (o: Option<f32>) requires -65536 <= lat < 65536, ensures coord27_post(message_type, 54_600, lat, o), { ' + F32)
-    fc.replace_in('parse_base', '.map(|val| {', '.map(|val: f32| -> (w: f32) ensures w == (if message_type == 27 { val.mul_spec(1000.0f32) } else { val }), {', occ='all')
+    fc.replace_in_re('parse_base', r'\|(\w+)\| \{(?=\s*if \1 == 108_600)', r'|\1: i32| -> (o: Option<f32>) requires -131072 <= \1 < 131072, ensures coord27_post(message_type, 108_600, \1, o), { ' + F32)
+    fc.replace_in_re('parse_base', r'\|(\w+)\| \{(?=\s*if \1 == 54_600)', r'|\1: i32| -> (o: Option<f32>) requires -65536 <= \1 < 65536, ensures coord27_post(message_type, 54_600, \1, o), { ' + F32)
+    fc.replace_in_re('parse_base', r'\.map\(\|(\w+)\| \{', r'.map(|\1: f32| -> (w: f32) ensures w == (if message_type == 27 { \1.mul_spec(1000.0f32) } else { \1 }), {', occ='all')
     fc.contract('parse_speed_over_ground_62', ensures=['sog27_rel(data, r)'], tags=['C10', 'C11'])
     fc.contract('parse_cog_511', ensures=['cog27_rel(data, r)'], tags=['C10', 'C11'])
 
@@ -508,7 +507,7 @@ pub open spec fn t15_C14(o: Seq<u8>, r: core::result::Result<Interrogation, ()>)
     fc.contract('parse', within='impl Station', requires=['cur_ok(data)'], ensures=['station_post(data, r)'], tags=['C04', 'C11', 'C14'])
     inner = ['t15_C04(data.0@, strip(r))', 't15_C14(data.0@, strip(r))']
     fc.contract('parse_message', requires=['small(data@.len() as int)'], ensures=['t15_C04(data@, strip(r))', 't15_C14(data@, strip(r))'])
-    fc.replace_in('parse_message', BITS_HEAD, bits_closure_head('Interrogation', inner))
+    apply_bits_closure(fc, 'parse_message', 'Interrogation', inner)
     fc.contract('parse', within='for Interrogation', ensures=['t15_C04(data@, strip1(r))', 't15_C14(data@, strip1(r))'])
 
 
